@@ -93,7 +93,7 @@ def check(run):
                 "(limit+1)-th evaluation of a burst) and satisfy the C10 monitor (no error for a "
                 "topologically numbered few-paths circuit, idle snapshots consistent). Non-trivial = "
                 ">= 3 evaluations; distinct by JSON.")
-    n = 150 if run.tier == 'quick' else 1500
+    n = 150 if run.tier == 'quick' else 6000
     cases = ([gen_cyclic(run.rng) for _ in range(n)] + [gen_event_loop(run.rng) for _ in range(n)]
              + [gen_layered(run.rng) for _ in range(n)])
     g = [gen_acyclic(run.rng, maxc=8) for _ in range(n // 2)]
